@@ -1,0 +1,5 @@
+//go:build !verif
+
+package proto
+
+func verifRowCap() int { return 0 }
